@@ -265,7 +265,11 @@ impl Request {
         while r.consume("\r\n").is_none() {
             let key_bytes = r.read_while(|b| b != &b':');
             r.consume(": ").ok_or_else(Response::BadRequest)?;
-            let value = CowSlice::Ref(Slice::from_bytes(r.read_while(|b| b != &b'\r')));
+            let value = r.read_while(|b| b != &b'\r');
+            /* header names and values are seen as `str` */
+            (std::str::from_utf8(key_bytes).is_ok() && std::str::from_utf8(value).is_ok()).then_some(())
+                .ok_or_else(Response::BadRequest)?;
+            let value = CowSlice::Ref(Slice::from_bytes(value));
             r.consume("\r\n").ok_or_else(Response::BadRequest)?;
 
             if let Some(key) = RequestHeader::from_bytes_ignore_case(key_bytes) {
